@@ -425,7 +425,7 @@ def render_params(rng, vals, lay, cmt_at):
 
 RISKY = ["comment-before-semicolon", "comment-between-id-and-eq", "comment-before-endsec", "whitespace-after-keyword",
          "comment-between-keyword-and-paren", "two-comments-one-instance", "two-comments-before-instance",
-         "apostrophe-in-comment", "comment-open-in-comment"]
+         "apostrophe-in-comment", "comment-open-in-comment", "id-above-int-max"]
 
 
 def render_instance(rng, x, lay=True, cmt=True, risky=None):
@@ -447,7 +447,11 @@ def render_instance(rng, x, lay=True, cmt=True, risky=None):
         out += "/*" + body + "*/" + ws(rng, lay)
     if risky == "two-comments-before-instance":
         out += comment(rng, semi=False) + ws(rng, lay) + comment(rng, semi=False) + ws(rng, lay)
-    out += f"#{x['id']}" + ws(rng, lay)
+    if risky == "id-above-int-max":
+        # a conforming instance name no `int` holds (the eager reader and SDAI_Application_instance::STEPfile_id are `int`)
+        out += "#" + str(rng.choice([2147483648, 3000000000, 4294967296 + x["id"], 10 ** 18 + x["id"]])) + ws(rng, lay)
+    else:
+        out += f"#{x['id']}" + ws(rng, lay)
     if risky == "comment-between-id-and-eq":
         out += comment(rng, semi=False) + ws(rng, lay)
     out += "=" + ws(rng, lay)
